@@ -1570,7 +1570,7 @@ func (*DefaultCtx) SaveFileToStorage(fileheader *multipart.FileHeader, path stri
 
 // Secure returns whether a secure connection was established.
 func (c *DefaultCtx) Secure() bool {
-	return c.Protocol() == schemeHTTPS
+	return c.Scheme() == schemeHTTPS
 }
 
 // Send sets the HTTP response body without copying it.
